@@ -74,6 +74,12 @@ COLD_CORPUS = [
     (['tcmt', 'first line\n   \nlast line', ['list', [['int', 1]]]], {}),
     (TUPLE_KEYS, {'sort_dict_keys': True}),
     (FSET_KEYS, {'sort_dict_keys': True}),
+    # lazily registered types whose very first print is at a depth cut / truncated / sorted
+    (['list', [['std', 'uuid', '12345678123456781234567812345678']]], {'depth': 1}),
+    (['list', [['std', 'enum', 'Color', 'GREEN']]], {'depth': 1}),
+    (['dict', [[['str', 'p'], ['list', [['std', 'path', 'PurePosixPath', '/a/b']]]]]], {'depth': 2}),
+    (['list', [['std', 'partial', 'partial', 'len', [], []], ['int', 1], ['int', 2]]], {'max_seq_len': 1}),
+    (['list', [['std', 'mproxy', [[['str', 'a'], ['int', 1]]]]]], {'depth': 1, 'sort_dict_keys': True}),
     (['std', 'chainmap', [[[['str', 'k'], ['int', 1]]], []]], {}),
     (['list', [['str', 'epsilon zeta eta theta iota kappa lambda mu'], ['float', '0.0'], ['int', 1]]], {'width': 20}),
     (['list', [['str', 'epsilon zeta'], ['bytes', b'epsilon zeta'.hex()], ['float', '0.0'], ['int', 1]]], {}),
